@@ -51,6 +51,22 @@ async def noise(n: Int): Int
   busy(n)
 end
 
+async def watch(p: Promise[Int]): Int
+  do
+    await p
+  catch :boom
+    0 - 1
+  end
+end
+
+def watch_sync(p: Promise[Int]): Int
+  do
+    await p
+  catch :boom
+    0 - 2
+  end
+end
+
 `
 
 func genTraceProgram(r *Rand) traceParams {
@@ -95,6 +111,7 @@ func genTraceProgram(r *Rand) traceParams {
 	}
 	frames := make([]traceFrame, k+1)
 	var kinds []string
+	nw := 0
 	// callForm emits the statements that call fn(i+1) inside indent and returns the line of the frame
 	callForm := func(ind string, next int, arg string) int {
 		callee := fmt.Sprintf("fn%d(%s)", next, arg)
@@ -109,6 +126,17 @@ func genTraceProgram(r *Rand) traceParams {
 			emit(ind + "  " + arg)
 			emit(ind + ")" + suffix)
 			return first
+		}
+		// other awaiters of the same promise: the rejection's trace is shared by all of them
+		watchers := func(ind string) {
+			if !r.Chance(0.45) {
+				return
+			}
+			for w, n := 0, r.Range(1, 2); w < n; w++ {
+				nw++
+				emit(fmt.Sprintf("%sw%d := watch(p)", ind, nw))
+			}
+			kinds = append(kinds, "extra_awaiters")
 		}
 		tag := func(k string) {
 			if multi {
@@ -130,16 +158,19 @@ func genTraceProgram(r *Rand) traceParams {
 		case 2:
 			kinds = append(kinds, "await_after_busy")
 			emit(ind + "p := " + callee)
+			watchers(ind)
 			emit(fmt.Sprintf("%sbusy(%d)", ind, Pick(r, []int{1, 20, 200, 2000})))
 			return emit(ind + "r := await p")
 		case 3:
 			kinds = append(kinds, "await_after_sleep")
 			emit(ind + "p := " + callee)
+			watchers(ind)
 			emit(fmt.Sprintf("%ssleep %d.milliseconds", ind, Pick(r, []int{1, 5, 50})))
 			return emit(ind + "r := await p")
 		default:
 			kinds = append(kinds, "await_after_noise")
 			emit(ind + "p := " + callee)
+			watchers(ind)
 			emit(fmt.Sprintf("%sq := noise(%d)", ind, Pick(r, []int{5, 100, 1000})))
 			emit(ind + "await q")
 			return emit(ind + "r := await p")
